@@ -24,8 +24,8 @@ NameOrder == Hdr.names
 
 INSTANCE Array
 
-VARIABLES l, fs, C, par, diag, clean, snap
-vars == <<l, fs, C, par, diag, clean, snap>>
+VARIABLES l, fs, C, par, diag, clean, snap, dmg
+vars == <<l, fs, C, par, diag, clean, snap, dmg>>
 
 (* ---- conversion of logged state ---- *)
 LoggedC(s) == [cf |-> s.cf, del |-> s.del, info |-> s.info]
@@ -52,9 +52,17 @@ ParMerge(pred, s) ==
 
 SameVal(a, b) == a = b \/ (IsJunkVal(a) /\ IsJunkVal(b))
 SameFile(f, g) == f.sz = g.sz /\ f.mt = g.mt /\ Len(f.b) = Len(g.b) /\ \A i \in 1..Len(f.b) : SameVal(f.b[i], g.b[i])
-SameFs(a, b) == \A d \in D : DOMAIN a[d] = DOMAIN b[d] /\ \A n \in DOMAIN a[d] : SameFile(a[d][n], b[d][n])
+SameFs(a, b) == \A d \in D : DOMAIN a[d] = DOMAIN b[d] /\ \A n \in DOMAIN a[d] : IsUnrec(n) \/ SameFile(a[d][n], b[d][n])
 
 ToSet(s) == {s[i] : i \in 1..Len(s)}
+
+(* differences between a predicted and an observed content state, for the diagnosis *)
+DiffC(p, o) ==
+    [files |-> {<<d, n, IF n \in DOMAIN p.cf[d] THEN p.cf[d][n] ELSE "absent", IF n \in DOMAIN o.cf[d] THEN o.cf[d][n] ELSE "absent">> :
+                  <<d, n>> \in {x \in UNION {{<<d, n>> : n \in DOMAIN p.cf[d] \cup DOMAIN o.cf[d]} : d \in D} :
+                      ~(x[2] \in DOMAIN p.cf[x[1]] /\ x[2] \in DOMAIN o.cf[x[1]] /\ p.cf[x[1]][x[2]] = o.cf[x[1]][x[2]])}},
+     del |-> {<<d, p.del[d], o.del[d]>> : d \in {e \in D : p.del[e] # o.del[e]}},
+     info |-> IF p.info = o.info THEN <<>> ELSE <<p.info, o.info>>]
 
 (* ---- properties on real states ---- *)
 CleanSynced(c, f) == ~ParityInvalid(c) /\ NoDifference(c, f)
@@ -67,6 +75,7 @@ Init ==
     /\ diag = <<>>
     /\ clean = FALSE
     /\ snap = Hdr.state.fs
+    /\ dmg = FALSE
 
 Ev == TraceLog[l]
 IsEvent(e) == l <= Len(TraceLog) /\ TraceLog[l].e = e
@@ -83,6 +92,7 @@ EnvStep ==
     /\ Follow(Ev.state, par)
     /\ diag' = IF LoggedC(Ev.state) = C THEN <<>> ELSE <<"Env changed content", l>>
     /\ clean' = FALSE
+    /\ dmg' = (dmg \/ Ev.dmg)
     /\ UNCHANGED snap
 
 SrcsOf(a) == a.srcs
@@ -94,14 +104,16 @@ SyncStep ==
            r == SyncResult(C, fs, fs1, par, a.now, a.opts, SrcsOf(a))
            okC == r.C = LoggedC(Ev.state)
            okP == ParAgrees(r.par, Ev.state)
-           okO == r.out.exit = Ev.out.exit /\ (r.out.exit = "refused" \/ (r.out.err = Ev.out.err /\ r.out.silent = Ev.out.silent))
+           okO == IF r.out.exit \in {"refused", "abort"} THEN Ev.out.exit = "stopped"
+                  ELSE r.out.exit = Ev.out.exit /\ r.out.err = Ev.out.err /\ r.out.silent = Ev.out.silent
            okF == Ev.state.fs = fs1
        IN /\ Follow(Ev.state, r.par)
           /\ diag' = IF okC /\ okP /\ okO /\ okF THEN <<>>
                      ELSE <<"Sync", l, [okC |-> okC, okP |-> okP, okO |-> okO, okF |-> okF],
-                            IF ~okC THEN r.C ELSE <<>>, IF ~okP THEN r.par ELSE <<>>, r.out>>
+                            IF ~okC THEN DiffC(r.C, LoggedC(Ev.state)) ELSE <<>>, IF ~okP THEN r.par ELSE <<>>, r.out>>
           /\ clean' = (Ev.out.exit = "ok" /\ CleanSynced(LoggedC(Ev.state), Ev.state.fs))
           /\ snap' = IF Ev.out.exit = "ok" THEN Ev.state.fs ELSE snap
+          /\ UNCHANGED dmg
 
 PresentOf(a) == ToSet(a.present)
 SelOf(a) == [d \in D |-> ToSet(a.sel[d])]
@@ -114,8 +126,8 @@ CheckStep ==
            okO == r.exit = Ev.out.exit /\ r.derr = PairSet(Ev.out.derr) /\ (a.audit \/ r.perr = PairSet(Ev.out.perr))
            okS == LoggedC(Ev.state) = C /\ Ev.state.fs = fs /\ ParAgrees(par, Ev.state)
        IN /\ Follow(Ev.state, par)
-          /\ diag' = IF okO /\ okS THEN <<>> ELSE <<"Check", l, [okO |-> okO, okS |-> okS], r>>
-          /\ UNCHANGED <<clean, snap>>
+          /\ diag' = IF okO /\ okS THEN <<>> ELSE <<"Check", l, [okO |-> okO, okS |-> okS], r, Ev.out>>
+          /\ UNCHANGED <<clean, snap, dmg>>
 
 FixStep ==
     /\ IsEvent("Fix")
@@ -130,19 +142,19 @@ FixStep ==
        IN /\ Follow(Ev.state, r.par)
           /\ diag' = IF okF /\ okP /\ okC /\ okO THEN <<>>
                      ELSE <<"Fix", l, [okF |-> okF, okP |-> okP, okC |-> okC, okO |-> okO],
-                            IF ~okF THEN r.fs ELSE <<>>, IF ~okP THEN r.par ELSE <<>>, r.out>>
-          /\ UNCHANGED <<clean, snap>>
+                            IF ~okF THEN r.fs ELSE <<>>, IF ~okP THEN r.par ELSE <<>>, r.out, Ev.out>>
+          /\ UNCHANGED <<clean, snap, dmg>>
 
 ScrubStep ==
     /\ IsEvent("Scrub")
     /\ LET a == Ev.args
-           r == ScrubResult(C, fs, par, PlanSel(C, a.plan), a.now)
+           r == ScrubResult(C, fs, par, PlanSel(C, a.plan), a.now, PresentOf(a))
            okC == r.C = LoggedC(Ev.state)
            okS == Ev.state.fs = fs /\ ParAgrees(par, Ev.state)
            okO == r.out.exit = Ev.out.exit /\ r.out.derr = PairSet(Ev.out.derr) /\ r.out.perr = PairSet(Ev.out.perr)
        IN /\ Follow(Ev.state, par)
-          /\ diag' = IF okC /\ okS /\ okO THEN <<>> ELSE <<"Scrub", l, [okC |-> okC, okS |-> okS, okO |-> okO], r>>
-          /\ UNCHANGED <<clean, snap>>
+          /\ diag' = IF okC /\ okS /\ okO THEN <<>> ELSE <<"Scrub", l, [okC |-> okC, okS |-> okS, okO |-> okO], IF ~okC THEN DiffC(r.C, LoggedC(Ev.state)) ELSE <<>>, r.out, Ev.out>>
+          /\ UNCHANGED <<clean, snap, dmg>>
 
 DiffStep ==
     /\ IsEvent("Diff")
@@ -150,7 +162,7 @@ DiffStep ==
            okS == LoggedC(Ev.state) = C /\ Ev.state.fs = fs /\ ParAgrees(par, Ev.state)
        IN /\ Follow(Ev.state, par)
           /\ diag' = IF r.exit = Ev.out.exit /\ okS THEN <<>> ELSE <<"Diff", l, r, okS>>
-          /\ UNCHANGED <<clean, snap>>
+          /\ UNCHANGED <<clean, snap, dmg>>
 
 (* a new execution in the same file (same D, NP) *)
 ResetStep ==
@@ -162,13 +174,14 @@ ResetStep ==
     /\ diag' = <<>>
     /\ clean' = FALSE
     /\ snap' = Ev.state.fs
+    /\ dmg' = FALSE
 
 Next == EnvStep \/ SyncStep \/ CheckStep \/ FixStep \/ ScrubStep \/ DiffStep \/ ResetStep
 Spec == Init /\ [][Next]_vars
 
 (* ---- what TLC checks ---- *)
 Conforms == diag = <<>>
-C06_ParityValid == ParityValid(C, par)
+C06_ParityValid == dmg \/ ParityValid(C, par)
 C06_MapSane == MapSane(C)
 Accepted == TLCGet("stats").diameter = Len(TraceLog)
 =============================================================================
